@@ -146,6 +146,11 @@ CLAIMED["C04"]["text"] += (" One level up, Call<WithBody>::write in its body pha
                            "and related to the model's call_write_body / call_direct_write (c04_code_call_write, c04_code_call_direct, proofs/Gen2_equiv_call2.v).")
 CLAIMED["C08"]["text"] += (" One level up, Call<RecvBody>::read (reader out of its option, ended short-circuit, BodyReader::read) is translated from src/client/call.rs as well and related to the model's call_read "
                            "(c08_code_call_read, proofs/Gen2_equiv_call2.v).")
+_AR = (" Call::analyze_request itself (runs once; Host from the URI when the caller gave none; the body's framing header when the caller gave none; the writer the analysis chose; its flag set only on success) "
+       "is translated from src/client/call.rs on every run and proved EQUAL to the model's analyze_request (%s, proofs/Gen2_equiv_call3.v).")
+CLAIMED["C02"]["text"] += _AR % "c02_code_analyze_request"
+CLAIMED["C14"]["text"] += _AR % "c14_code_analyze_request"
+CLAIMED["C14"]["technique"] += " + the code's own functions translated to Gallina on every run and proved equivalent to the model"
 _AMH = CODE2 % ("client/amended.rs AmendedRequest::headers and the accessors built on it (headers_get_all, headers_get, headers_len); the added ArrayVec, the unset list and the original HeaderMap are lists in iteration order",
                "%s: plain equalities with the model's am_headers / get_all: added headers first in the order added, then the original ones that are not unset; the unset list filters inherited headers only")
 CLAIMED["C16"]["text"] += _AMH % "c16_code_headers, c16_code_headers_len"
